@@ -15,6 +15,12 @@ POOLS = {
     "dollar": ["a$b", "$x", "cost$", "a$$", "$1x"],
     "non_ascii": ["ünï", "列", "😀x", "naïve", "Ωmega", "ñ", "данные", "café"],
     "quotes": ["it's", "say\"hi\"", "dq\"", "'sq'", "mix'\"", "q\"\"q"],
+    # names that only BEGIN like one of the safe-looking classes (a generated name, a keyword, a plain lower-case word)
+    # and go on with something that needs quoting: a shortcut that classifies a name by its beginning shows here
+    "generated_prefix": ["table_3 b", "_expr_1 total", "table_1.x", "table_2024-01", "table_2A", "_expr_0x y", "table_0_ z", "_expr_12 3", "table_9$",
+                         "_expr_7é", "table_1'q", "table_5\"d", "table_00-", "_expr_-1", "table_ 1", "_expr_ a", "table_1,table_2", "_expr_3;"],
+    "compound": ["select x", "order-by", "a b", "abc.def", "x-1", "lower UPPER", "from.t", "t1 t2", "a as b", "n null", "col1,col2", "a--b", "a/*b*/",
+                 "group by", "a;b", "x y", "tab.col.sub", "a  b", "é a", "a\tb"],
     "generated": ["table_0", "table_1", "table_2", "table_3", "_expr_0", "_expr_1", "_expr_2", "_expr_3", "table_4", "_expr_4"],
 }
 
